@@ -31,6 +31,7 @@ PLAN_VERSION = "lfhtc-10"
 
 # ---- theorem lists (fill from Props/*.lean at integration; names are fully qualified) -----------------------------
 THEOREMS05 = ['UrcuVerif.Lfht.Conc.C05_full_holds',
+              'UrcuVerif.Lfht.Conc.lfht_linearizable',
               'UrcuVerif.Lfht.Conc.lfht_linearizable_partial',
               'UrcuVerif.Lfht.Conc.linearisation_points',
               'UrcuVerif.Lfht.Conc.lin_accounting',
@@ -48,13 +49,11 @@ THEOREMS05 = ['UrcuVerif.Lfht.Conc.C05_full_holds',
               'UrcuVerif.Lfht.Conc.resident_found',
               'UrcuVerif.Lfht.Conc.invRFL_reach',
               'UrcuVerif.Lfht.Conc.invRFA_reach']
-UNPROVED05 = ["UrcuVerif.Lfht.Conc.LfhtLinearizable (one sequential history ordered by linearisation-point indices for a whole execution) is stated, not "
-              "proved; proved instead (lfht_linearizable_partial): every completed add / add_unique / add_replace / replace / del / lookup "
-              "call - including lookup 'not found' - has a linearisation point between its call and its return at which the multiset-per-key "
-              "specification takes exactly its effect and returns exactly its result, the abstract table changes only at insertion CAS / REMOVED "
-              "fetch-or / replace CAS, and at most one success per node (no point serves two calls). 'not found' needs the key managed by unique "
-              "adds only or by plain adds only (mixed use is genuinely not linearizable for 'not found'); next_duplicate / first / next are covered "
-              "by resident_found_traversal, not by the linearisation-point theorem; the Wing-Gong oracle checks whole histories on explored schedules"]
+UNPROVED05 = ["(linearizability is proved: lfht_linearizable) remaining, stated openly: the theorem assumes a per-(key, hash) discipline - unique adds "
+              "only (add_unique / add_replace) or plain adds only - which is needed for add_unique / add_replace inserts and for lookup 'not found' "
+              "(mixed use is genuinely not linearizable for 'not found'); history entries for calls still PENDING at the end of the execution are "
+              "legal spec steps at table-changing events but are not attributed to a particular pending call; next_duplicate / first / next are "
+              "covered by resident_found_traversal / no_two_visible, not by the linearizability theorem"]
 THEOREMS06 = ['UrcuVerif.Lfht.Conc.C06_full_holds',
               'UrcuVerif.Lfht.Conc.uniq_in_L',
               'UrcuVerif.Lfht.Conc.no_two_visible',
